@@ -80,6 +80,9 @@ func rangeOver(fn *ssa.Function, field *types.Var) (*ssa.Next, *ssa.BasicBlock) 
 	return nil, nil
 }
 
+// c17SharedAppend: appends in package store/trie whose first argument is not a slice the function made, confirmed by reading.
+var c17SharedAppend = map[string]string{}
+
 func c17(c *core.Ctx) {
 	const tr = "store/trie"
 	const acct = "chain/account"
@@ -774,6 +777,110 @@ func c17(c *core.Ctx) {
 				c.Check(key+":source-known", "value-flow", false, ci.Pos(), "the node handed to the recursive hash is neither a branch node's child nor a short node's Val")
 			}
 		}
+	})
+
+	c.Clause("C17.9", "trie nodes do not grow each other's keys: in package store/trie no append starts from the Key slice of a short node (keys created by insert as key[:matchlen] share their backing array with the sibling leaf; an append with spare capacity overwrites the sibling's key) — merged keys are built in a fresh slice")
+	c.Run("no-append-to-shared-keys", func() {
+		var fresh func(v ssa.Value, d int) bool
+		fresh = func(v ssa.Value, d int) bool {
+			if d > 8 {
+				return false
+			}
+			switch x := v.(type) {
+			case *ssa.MakeSlice:
+				return true
+			case *ssa.Const:
+				return x.IsNil()
+			case *ssa.Slice:
+				if al, ok := x.X.(*ssa.Alloc); ok {
+					_ = al
+					return true // a slice of a fresh local array
+				}
+				return fresh(x.X, d+1)
+			case *ssa.Call:
+				if bi, ok := x.Call.Value.(*ssa.Builtin); ok && bi.Name() == "append" {
+					return fresh(x.Call.Args[0], d+1)
+				}
+				// a function of the package that returns a fresh slice (copying helpers)
+				if sf := core.StaticFn(x); sf != nil && sf.Blocks != nil && core.InRepo(sf) {
+					for _, r := range core.Returns(sf) {
+						if len(r.Results) == 0 || !fresh(r.Results[0], d+2) {
+							return false
+						}
+					}
+					return true
+				}
+				return false
+			case *ssa.Phi:
+				for _, e := range x.Edges {
+					if !fresh(e, d+1) {
+						return false
+					}
+				}
+				return len(x.Edges) > 0
+			case *ssa.UnOp:
+				if al, ok := x.X.(*ssa.Alloc); ok && x.Op == token.MUL && al.Referrers() != nil {
+					n := 0
+					for _, r := range *al.Referrers() {
+						if st, ok := r.(*ssa.Store); ok && st.Addr == ssa.Value(al) {
+							n++
+							if !fresh(st.Val, d+1) {
+								return false
+							}
+						}
+					}
+					return n > 0
+				}
+			}
+			return false
+		}
+		n := 0
+		seq := map[string]int{}
+		for _, fn := range c.SrcFuncs {
+			if core.RelPkg(fn) != tr || isTestHelper(c, fn) {
+				continue
+			}
+			for _, ci := range core.AllCalls(fn) {
+				call, ok := ci.(*ssa.Call)
+				if !ok {
+					continue
+				}
+				bi, isB := call.Call.Value.(*ssa.Builtin)
+				if !isB || bi.Name() != "append" {
+					continue
+				}
+				n++
+				if fresh(call.Call.Args[0], 0) {
+					continue
+				}
+				// only appends that start from a slice stored in a trie node (its key): path prefixes and the sync / iterator
+				// work lists are scratch memory of their owner
+				fromNode := false
+				base := call.Call.Args[0]
+				for {
+					if sl, ok := base.(*ssa.Slice); ok {
+						base = sl.X
+						continue
+					}
+					break
+				}
+				if ld, ok := base.(*ssa.UnOp); ok && ld.Op == token.MUL {
+					if f := core.FieldOf(ld.X); f != nil && f.Name() == "Key" {
+						if on := ownerNamed(c, f); on != nil && on.Obj().Name() == "shortNode" {
+							fromNode = true
+						}
+					}
+				}
+				if !fromNode {
+					continue
+				}
+				name := shortFn(fn)
+				why, listed := c17SharedAppend[name]
+				seq[name]++
+				c.Check("append-to-shared@"+name+seqSuffix(seq[name]), "alias-write", listed, call.Pos(), "%s appends to a slice it did not make; listed=%v: %s", name, listed, why)
+			}
+		}
+		c.Floor("appends-in-package-trie", n, 5)
 	})
 
 	c.Clause("C17.6", "a Merkle proof is judged against the root the caller supplies: every return of merkle.Verify that can be true compares the hash computed from the target and the path with the root parameter")
